@@ -521,3 +521,106 @@ Lemma boxhash_steps_refuted :
   exists tr lg, run never (hash_ticks Hashing (false, [(1, 1%N); (1, 1%N)])) 0 = (tr, lg, ROk)
                 /\ trace_ok tr = false.
 Proof. vm_compute. eexists; eexists; split; reflexivity. Qed.
+
+(* ---- operations that issue no OCSP fetch: the OCSP catch site is never entered, so its flag is irrelevant ---- *)
+
+Fixpoint itree_ocsp_free (k : itree) : bool :=
+  match k with
+  | ILeaf => true
+  | INode oc _ kids => Nat.eqb (fst oc) 0 && forallb itree_ocsp_free kids
+  end.
+
+Definition vshape_ocsp_free (v : vshape) : bool :=
+  Nat.eqb (fst (v_ocsp v)) 0 && forallb itree_ocsp_free (v_kids v).
+
+Definition with_ocsp (f : cflags) : cflags := CF (hash_arms_pass f) true (ingredient_status_pass f).
+
+Definition same_run (a b : op) : Prop := forall e i, run e a i = run e b i.
+
+Lemma same_run_refl a : same_run a a.
+Proof. intros e i. reflexivity. Qed.
+
+Lemma same_run_seq a a' b b' : same_run a a' -> same_run b b' -> same_run (Seq a b) (Seq a' b').
+Proof. intros Ha Hb e i. cbn [run]. rewrite (Ha e i). destruct (run e a' i) as [[tr lg] [| |c]]; auto. rewrite (Hb e). reflexivity. Qed.
+
+Lemma same_run_catch p c a a' : same_run a a' -> same_run (Catch p c a) (Catch p c a').
+Proof. intros Ha e i. cbn [run]. rewrite (Ha e i). reflexivity. Qed.
+
+Lemma same_run_strict a a' : same_run a a' -> same_run (Strict a) (Strict a').
+Proof. intros Ha e i. cbn [run]. rewrite (Ha e i). reflexivity. Qed.
+
+Lemma verify_claim_free f oc : Nat.eqb (fst oc) 0 = true -> same_run (verify_claim f oc) (verify_claim (with_ocsp f) oc).
+Proof.
+  destruct oc as [n t]. cbn [fst]. intros H. apply Nat.eqb_eq in H. subst n.
+  intros e i. reflexivity.
+Qed.
+
+Lemma ing_body_free f : forall k, itree_ocsp_free k = true -> same_run (ing_body f k) (ing_body (with_ocsp f) k).
+Proof.
+  fix IH 1. intros [|oc first kids]; cbn [ing_body itree_ocsp_free]; intros H.
+  - apply same_run_refl.
+  - apply andb_prop in H as [Hoc Hk].
+    apply same_run_seq; [apply verify_claim_free; auto|].
+    destruct first; [|apply same_run_refl].
+    generalize 0%N. generalize (N.of_nat (length kids)).
+    induction kids as [|x r IHr]; intros tot st.
+    + apply same_run_refl.
+    + cbn [forallb] in Hk. apply andb_prop in Hk as [Hx Hr].
+      apply same_run_seq; [apply same_run_refl|].
+      apply same_run_seq; [apply IH; auto | apply IHr; auto].
+Qed.
+
+Lemma ing_checks_free f : forall l total step, forallb itree_ocsp_free l = true ->
+  same_run (ing_checks f total l step) (ing_checks (with_ocsp f) total l step).
+Proof.
+  induction l as [|x r IH]; intros total step H; cbn [ing_checks].
+  - apply same_run_refl.
+  - cbn [forallb] in H. apply andb_prop in H as [Hx Hr].
+    apply same_run_seq; [apply same_run_refl|].
+    apply same_run_seq; [apply ing_body_free; auto | apply IH; auto].
+Qed.
+
+Lemma verify_store_free f v : vshape_ocsp_free v = true -> same_run (verify_store f v) (verify_store (with_ocsp f) v).
+Proof.
+  unfold vshape_ocsp_free. intros H. apply andb_prop in H as [Hoc Hk]. unfold verify_store.
+  apply same_run_seq; [apply same_run_refl|].
+  apply same_run_seq; [apply verify_claim_free; auto|].
+  apply same_run_seq; [apply ing_checks_free; auto|].
+  destruct (v_hash v); apply same_run_refl.
+Qed.
+
+Definition opt_free (v : option vshape) : bool := match v with Some v => vshape_ocsp_free v | None => true end.
+
+(* with the hash-binding and ingredient sites passing the cancellation on, every operation that issues no
+   OCSP fetch propagates it, whatever the OCSP site does *)
+Lemma no_ocsp_propagates f : hash_arms_pass f = true -> ingredient_status_pass f = true ->
+  forall o,
+    (exists remote v, vshape_ocsp_free v = true /\ (o = read_stream f remote v \/ o = read_sidecar f v \/ o = ingredient_import f remote v)) \/
+    (exists s, opt_free (s_verify s) = true /\ o = sign_stream f s) \/
+    (exists h v, opt_free v = true /\ o = sign_embeddable f h v) ->
+  forall e tr lg r, run e o 0 = (tr, lg, r) ->
+    Exists (fun t => requested e (t_idx t) = true) tr -> r = RCancel.
+Proof.
+  intros Hh Hi o Ho e tr lg r H.
+  assert (Hf : all_flags (with_ocsp f) = true) by (unfold all_flags, with_ocsp; cbn; rewrite Hh, Hi; reflexivity).
+  assert (Hh' : hash_arms_pass (with_ocsp f) = true) by (cbn; auto).
+  assert (Ho' : ocsp_fetch_pass (with_ocsp f) = true) by reflexivity.
+  destruct Ho as [(remote & v & Hv & [-> | [-> | ->]]) | [(s & Hs & ->) | (h & v & Hv & ->)]].
+  - assert (S : same_run (read_stream f remote v) (read_stream (with_ocsp f) remote v)).
+    { unfold read_stream. apply same_run_seq; [apply same_run_refl|]. apply same_run_seq; [apply same_run_refl|]. apply verify_store_free; auto. }
+    rewrite (S e 0) in H. exact (cancel_propagates _ (read_stream_pass _ remote v Hh' Ho') e 0 tr lg r H).
+  - rewrite (verify_store_free f v Hv e 0) in H.
+    exact (cancel_propagates _ (verify_store_pass _ v Hh' Ho') e 0 tr lg r H).
+  - assert (S : same_run (ingredient_import f remote v) (ingredient_import (with_ocsp f) remote v)).
+    { unfold ingredient_import. apply same_run_seq; [apply same_run_refl|]. cbn [with_ocsp ingredient_status_pass].
+      apply same_run_catch. apply same_run_seq; [apply same_run_refl|]. apply verify_store_free; auto. }
+    rewrite (S e 0) in H. exact (cancel_propagates _ (ingredient_import_pass _ remote v Hf) e 0 tr lg r H).
+  - assert (S : same_run (sign_stream f s) (sign_stream (with_ocsp f) s)).
+    { unfold sign_stream. repeat (apply same_run_seq; [apply same_run_refl|]).
+      destruct (s_verify s) as [v|]; [|apply same_run_refl]. apply same_run_strict. apply verify_store_free; auto. }
+    rewrite (S e 0) in H. exact (cancel_propagates _ (sign_stream_pass _ s Hh' Ho') e 0 tr lg r H).
+  - assert (S : same_run (sign_embeddable f h v) (sign_embeddable (with_ocsp f) h v)).
+    { unfold sign_embeddable. repeat (apply same_run_seq; [apply same_run_refl|]).
+      destruct v as [v|]; [|apply same_run_refl]. apply same_run_strict. apply verify_store_free; auto. }
+    rewrite (S e 0) in H. exact (cancel_propagates _ (sign_embeddable_pass _ h v Hh' Ho') e 0 tr lg r H).
+Qed.
